@@ -18,7 +18,9 @@ var _ = reserr.ErrTimeout
 //@ pending responseCont.f
 //@ immutable responseCont.isReq, responseCont.f
 
-// Every registered entry is a responseCont (data-structure invariant).
+// Every registered entry is a responseCont (data-structure invariant): assumed at entry of every
+// operation, proved again at the exit of SendRequest, Subscribe and Unsubscribe; not after the
+// completion callbacks invoked by onTimeout and the listener (what a callback does is its own).
 //@ define predReqsOK(c *Client) bool = c != nil && c.mqReqs != nil &&
 //@     (forall s *nats.Subscription :: has(c.mqReqs, s) ==> c.mqReqs[s] != nil)
 
@@ -60,6 +62,7 @@ var _ = reserr.ErrTimeout
 //@   assumes predReqsOK(c) && c.mq != nil && c.tq != nil
 //@   resolves[C18] cb exactly-once
 //@   ensures[C18] forall s *nats.Subscription :: old(has(c.mqReqs, s)) ==> has(c.mqReqs, s)
+//@   ensures predReqsOK(c)
 //@   safety[C15]
 
 // Subscribe: a namespace that cannot fit a SUB control line is refused.
@@ -68,6 +71,7 @@ var _ = reserr.ErrTimeout
 //@   requires c != nil
 //@   assumes predReqsOK(c) && c.mq != nil
 //@   ensures[C18] result1 == nil ==> result0 != nil
+//@   ensures predReqsOK(c)
 //@   safety[C15]
 
 // Unsubscribe removes the entry, so that no later message reaches the callback.
@@ -75,6 +79,7 @@ var _ = reserr.ErrTimeout
 //@   requires s != nil && s.c != nil && s.sub != nil
 //@   assumes predReqsOK(s.c)
 //@   ensures[C18] !has(s.c.mqReqs, s.sub)
+//@   ensures predReqsOK(s.c)
 //@   safety[C15]
 
 // listener: for a pending request the first message that is not a pre-response removes the
